@@ -109,8 +109,8 @@ def R1_traverse(ctx):
         if v == "None":
             ctx.check(r.ret == ("agg", "std::result::Result", "Ok", (("0", ("item", U + "grade::Grade::ZERO")),)), "get_grade:no-table=>0", "without a grade table the grade is not Grade::ZERO", gb.where())
             okt += 1
-        elif result_variant(r.ret) == "Ok":
-            pay = agg_payload(r.ret)
+        elif ok_value(r) is not None:
+            pay = ok_value(r)
             g = [x for x in subterms(pay) if x[0] == "call" and x[1] == "std::slice::<impl [T]>::get"]
             ctx.check(len(g) >= 1 and contains(g[0][2][0], lambda s: s == ("arg", 1)) and contains(g[0][2][1], lambda s: s == ("arg", 2)), "get_grade:table[edge_id]", "the grade is not table[edge_id]: %s" % short(pay)[:120], gb.where(), detail="table.get(edge_id)")
             okt += 1
@@ -155,7 +155,14 @@ def R2_record(ctx):
             rows_b = [r for r in table(b, max_paths=100000) if r.end == "return" and result_variant(r.ret) == "Ok"]
     else:
         tm = Terms(b)
-        rows_b = [r for r in table(b, max_paths=100000) if r.end == "return" and result_variant(r.ret) == "Ok"]
+        rows_b = []
+        for r in table(b, max_paths=100000):
+            if r.end != "return" or is_err_value(r.ret) or result_variant(r.ret) == "Err":
+                continue
+            if result_variant(r.ret) != "Ok":
+                # the value of a fallible call returned as it is (`Energy::create(..).map_err(..)`): payload convention
+                r.ret = ("agg", "std::result::Result", "Ok", (("0", r.ret),))
+            rows_b.append(r)
     hcall = None
     if in_helper:
         hs = [c for c in b.calls() if c.callee == cb.path]
@@ -170,8 +177,14 @@ def R2_record(ctx):
         A.symbols[hcall] = "hrate"
     arms = set()
 
+    def is_getc(t):
+        return t[0] == "call" and t[1] == GET and len(t[2]) == 2 and t[2][0] == ("field", ("arg", 1), "cache")
+
     def arm_of(r):
-        return "no-cache" if sel_is(r, ("field", ("arg", 1), "cache"), "None") else ("hit" if sel_is(r, nosite(getc), "Some") else "miss")
+        if sel_is(r, ("field", ("arg", 1), "cache"), "None"):
+            return "no-cache"
+        hit = sel_is(r, nosite(getc), "Some") or any(is_getc(k) and (v == "Some" or (isinstance(v, tuple) and "Some" in v[1])) for k, v in r.sel.items())
+        return "hit" if hit else "miss"
 
     for r in rows_b:
         pay = agg_payload(r.ret)
@@ -181,7 +194,7 @@ def R2_record(ctx):
         c = cr[0]
         ok_pay = pay == c or pay == ("tuple", (("field", c, "0"), ("field", c, "1")))
         ctx.check(ok_pay, "energy:returned-unchanged", "the created (energy, unit) pair is altered before it is returned: %s" % short(pay)[:160], b.where(), detail="Ok(create(..))")
-        rate = A.ev(c[2][0])
+        rate = A.ev(_canon_get(norm_adaptors(F, c[2][0]), GET, getc))
         if in_helper:
             ctx.check(rate.equals(S("hrate") * S("adj")), "rate*adjustment", "the rate handed to Energy::create is %r, expected (value of %s) * adjustment" % (rate, short_fn_name(cb.path)), b.where(), detail="helper(..) * adj")
         else:
@@ -214,8 +227,12 @@ def R2_record(ctx):
     ok = len(up) == 1 and len(gc) == 1
     if ok:
         ua, ga = args_of(ctm, up[0]), args_of(ctm, gc[0])
-        ctx.check(ga[1] == key and ua[1] == key and ga[0] == ua[0] == ("field", ("arg", 1), "cache"), "cache:key=(speed, grade) for get and update", "the cache is not read and written under vec![speed.0.as_f64(), grade.0.as_f64()]: get %s update %s" % (short(ga[1])[:80], short(ua[1])[:80]), up[0].where(), detail="vec![speed.0, grade.0]")
-        w = A.ev(ua[2])
+        def key_elems(t):
+            if t[0] == "call" and t[1] == "vec!" and t[2] and t[2][0][0] == "array":
+                return t[2][0][1]
+            return t[1] if t[0] in ("array", "tuple") else None
+        ctx.check(key_elems(ga[1]) == key_elems(key) and key_elems(ua[1]) == key_elems(key) and ga[0] == ua[0] == ("field", ("arg", 1), "cache"), "cache:key=(speed, grade) for get and update", "the cache is not read and written under vec![speed.0.as_f64(), grade.0.as_f64()]: get %s update %s" % (short(ga[1])[:80], short(ua[1])[:80]), up[0].where(), detail="vec![speed.0, grade.0]")
+        w = A.ev(_canon_get(norm_adaptors(F, ua[2]), GET, getc))
         ctx.check(w.equals(S("rate")), "cache:stores-the-raw-rate-it-returns", "the value written to the cache is %r but a later hit is used as the raw rate (the miss arm returns `rate`): the adjustment would be applied %s on hits" % (w, "twice" if w.equals(S("rate") * S("adj")) else "differently"), up[0].where(), detail="update(key, rate)")
         ctx.check(try_propagation(cb, up[0], ctm)["kind"] == "propagated" and try_propagation(cb, gc[0], ctm)["kind"] == "propagated", "cache:errors", "cache errors are not propagated", up[0].where())
     else:
@@ -225,7 +242,12 @@ def R2_record(ctx):
         ttm = Terms(tb)
         for c in tb.calls():
             if c.func.get("method") == "predict" and (c.func.get("dyn") or c.func.get("virtual") or "PredictionModel::predict" in (c.callee or "")):
-                ctx.check(try_propagation(tb, c, ttm)["kind"] == "propagated", "model:error@%s" % short_fn_name(p_), "Err of the prediction model is not propagated", c.where())
+                ctx.check(try_propagation(tb, c, ttm)["kind"] == "propagated" or error_flow(F, tb, c, ttm).get("ok"), "model:error@%s" % short_fn_name(p_), "Err of the prediction model is not propagated", c.where())
+
+
+def _canon_get(t, GET, getc):
+    """the cache lookup under whatever spelling of its key (vec!, array, tuple) is the lookup"""
+    return rewrite(t, lambda x: getc if x[0] == "call" and x[1] == GET and len(x[2]) == 2 and x[2][0] == ("field", ("arg", 1), "cache") and x != getc else None)
 
 
 def sel_get(r, t):
@@ -420,7 +442,7 @@ def soc_update_ok(ctx, b, tm, c, inst, st, smd, energy, units):
 def R5_phev_switch(ctx):
     """C08.R5 PHEV power-source switch"""
     F = ctx.F
-    ctx.rule("C08.R5", "get_phev_energy decides on `soc > 0.0` alone: true => (depleting.predict(speed, grade, distance), Energy(0.0), sustaining energy unit); false => (Energy(0.0), depleting energy unit, sustaining.predict(..)); errors propagated", floor=4)
+    ctx.rule("C08.R5", "get_phev_energy decides on `soc > 0.0` alone: true => (depleting.predict(speed, grade, distance), Energy(0.0), sustaining energy unit); false => (Energy(0.0), depleting energy unit, sustaining.predict(..)); errors propagated", floor=3)
     b = F.need(P + "vehicle::default::phev::get_phev_energy")
     cd, cs = ("field", ("arg", 1), "charge_depleting_model"), ("field", ("arg", 1), "charge_sustain_model")
     zero = ("call", U + "energy::Energy::new", (("const", "f64", "0.0"),))
@@ -436,9 +458,9 @@ def R5_phev_switch(ctx):
             ctx.bad("switch:condition", "a path decides on %s instead of `battery_soc_percent > 0.0` alone" % sorted(short(("bin",) + f)[:80] for f in r.facts), b.where())
             continue
         side = "charged" if r.facts == {pos} else "empty"
-        if result_variant(r.ret) == "Ok":
+        if ok_value(r) is not None:
             seen.add(side)
-            pay = agg_payload(r.ret)
+            pay = ok_value(r)
             if side == "charged":
                 want = ("tuple", (("field", pr(cd), "0"), ("field", pr(cd), "1"), zero, eu(cs)))
                 alt = ("tuple", (("field", pr(cd), "0"), eu(cd), zero, eu(cs)))
